@@ -439,7 +439,7 @@ func resolveIncludePaths(basePath string, includes []ast.Include) []string {
 			resolved = append(resolved, resolvedPath)
 		}
 	}
-	sort.Strings(resolved)
+	// kept in directive order: the order in which a load follows the includes
 	return resolved
 }
 
